@@ -199,7 +199,12 @@ class BayesianModelSampling(BayesianModelInference):
 
         # If no evidence is given, it is equivalent to forward sampling.
         if len(evidence) == 0:
-            return self.forward_sample(size=size, include_latents=include_latents)
+            return self.forward_sample(
+                size=size,
+                include_latents=include_latents,
+                show_progress=show_progress,
+                partial_samples=partial_samples,
+            )
 
         # Setup array to be returned
         sampled = pd.DataFrame()
